@@ -3,7 +3,7 @@
    before; no fixed variable may still be mentioned. *)
 From Coq Require Import List ZArith QArith Qcanon Bool Arith.
 From Dimod Require Import Base.Util Model.Poly Model.HPoly Model.FixPy Model.HPolyPy.
-From Dimod Require Model.Expr Model.FixCopy.
+From Dimod Require Model.Expr Model.FixCopy Model.FlipMarks.
 Import ListNotations.
 
 Record case := mkCase {
@@ -72,9 +72,12 @@ Record ccase := mkCC {
   cc_after : Expr.mcqm
 }.
 
+(* marks of before / after are lhs.is_discrete() = marked_discrete() && is_onehot(); the in-place path is the Cython
+   fix_variable with its marker loop (FlipMarks.cy_cqm_fix_variables_inplace), the copy path marks
+   old-marked && new-is-onehot; both are compared through FlipMarks.discrete_view with what is_discrete() reports *)
 Definition ccheck (c : ccase) : bool :=
+  let m := if cc_copy c then FixCopy.cqm_fix_variables_copy (cc_fixed c) (cc_before c)
+           else FlipMarks.cy_cqm_fix_variables_inplace (cc_fixed c) (cc_before c) in
   check (cc_case c)
-  && mcqm_sim (length (Expr.m_info (cc_before c)))
-       (if cc_copy c then FixCopy.cqm_fix_variables_copy (cc_fixed c) (cc_before c)
-        else FixCopy.cqm_fix_variables_inplace (cc_fixed c) (cc_before c))
-       (cc_after c).
+  && mcqm_sim (length (Expr.m_info (cc_before c))) m (cc_after c)
+  && list_eqb Bool.eqb (FlipMarks.discrete_view m) (map Expr.mc_mark (Expr.m_cons (cc_after c))).
